@@ -5,6 +5,7 @@ import Driver.ThreadsIO
 import Driver.GLoopIO
 import Driver.ObjectsIO
 import Driver.GMachineIO
+import Driver.ViewsIO
 
 open Lean Driver
 
@@ -19,7 +20,14 @@ def handle (line : String) : String :=
         | some r => some r
         | none => if op = "machine" then some (opMachine j) else if op = "threads" then some (opThreads j) else if op = "gflat" then some (opGFlat j)
           else if op = "tm" then some (opTM j) else if op = "sstack" then some (opSStack j) else if op = "heapq" then some (opHeapq j)
-          else if op = "gmachine" then some (opGMachine j) else none
+          else if op = "gmachine" then some (opGMachine j)
+          else if op = "dialogview" then some (opDialogView j) else if op = "equeue" then some (opEQueue j)
+          else if op = "machine+g" then some (do
+            -- both machines on one case: the MainLoop machine's result, with the GLib machine's result under "g"
+            let m ← opMachine j
+            let g ← opGMachine j
+            pure (m.setObjVal! "g" g))
+          else none
       match r with
       | some (.ok r) => r.compress
       | some (.error e) => (Json.mkObj [("fatal", e)]).compress
